@@ -17,8 +17,10 @@
 (*   Dev_StopDropsDynamic   StopEvent.custom_model_dump shadows DictLikeModel.custom_model_dump, so `_data` is not  *)
 (*                          written for StopEvent and its subclasses (TRUE = as the code is today)                  *)
 (*   Dev_ExcRebuiltFromStr  _deserialize_exception rebuilds the exception as cls(str(exc)): the message survives    *)
-(*                          only when str(cls(m)) = m, and the call raises TypeError (uncaught) when the            *)
-(*                          constructor does not accept a single message argument                                   *)
+(*                          only when str(cls(m)) = m; when the constructor does not accept a single message        *)
+(*                          argument the reader falls back to Exception(m) (type lost)                              *)
+(*   Dev_CtorFailureRaises  (with Dev_ExcRebuiltFromStr) that constructor failure is not caught: reading the event  *)
+(*                          or tick back raises TypeError.  FALSE since /repo 'fix: reading back an exception ...'  *)
 (***************************************************************************************************************)
 EXTENDS Naturals, FiniteSets, Sequences, TLC
 
@@ -28,7 +30,8 @@ CONSTANTS MaxFeatures,            \* max number of varied payload features in on
           Plan,                   \* set of <<trips, rep>>: number of consecutive round trips (1 or 2) and which
                                   \* representative values are used
           Dev_StopDropsDynamic,
-          Dev_ExcRebuiltFromStr
+          Dev_ExcRebuiltFromStr,
+          Dev_CtorFailureRaises
 
 (* ---------------------------------------------------------------- kinds *)
 GeneratedBases == {"event", "start", "stop", "input_required", "human_response"}    \* base class itself, or a generated subclass with typed fields
@@ -107,8 +110,8 @@ EncDyn == IF cls \in StopLike /\ Dev_StopDropsDynamic THEN {} ELSE dyn
 Enc == [class |-> cls, typed |-> typed, dyn |-> EncDyn, res |-> res, exc |-> exc]
 
 \* what the reader rebuilds; "raise" = the reader raises instead of returning
-DecRaises == exc \in CtorExc /\ Dev_ExcRebuiltFromStr
-DecExcType == IF exc \in FallbackExc THEN "builtins.Exception" ELSE exc
+DecRaises == exc \in CtorExc /\ Dev_ExcRebuiltFromStr /\ Dev_CtorFailureRaises
+DecExcType == IF exc \in FallbackExc \/ (exc \in CtorExc /\ Dev_ExcRebuiltFromStr) THEN "builtins.Exception" ELSE exc
 DecExcMsg  == IF exc \in StrWrapExc /\ Dev_ExcRebuiltFromStr THEN "wrapped" ELSE "same"
 Dec == [class |-> ResolvedClass, typed |-> Enc.typed, dyn |-> Enc.dyn, res |-> Enc.res,
         exc_type |-> DecExcType, exc_msg |-> DecExcMsg]
@@ -135,9 +138,11 @@ Inv_Identity == Pred = {}
 \* today's code: nothing fails outside the two known shapes, and each known shape predicts exactly its own clause
 Inv_IdentityKF ==
   /\ (~KF_StopDyn /\ ~KF_ExcStr) => Pred = {}
-  /\ Pred \subseteq {"dynamic_field_dropped:stop", "exception_message_lost:" \o exc, "raised:deserialize:TypeError:" \o exc}
+  /\ Pred \subseteq {"dynamic_field_dropped:stop", "exception_message_lost:" \o exc, "exception_type_lost:" \o exc,
+                     "raised:deserialize:TypeError:" \o exc}
   /\ ("dynamic_field_dropped:stop" \in Pred) => KF_StopDyn
-  /\ (Pred \cap {"exception_message_lost:" \o exc, "raised:deserialize:TypeError:" \o exc} # {}) => KF_ExcStr
+  /\ (Pred \cap {"exception_message_lost:" \o exc, "exception_type_lost:" \o exc,
+                 "raised:deserialize:TypeError:" \o exc} # {}) => KF_ExcStr
 \* the class tag always resolves in the grid (no vector depends on an unregistered short name)
 Inv_TagResolves == Tag \in {"short_name", "short_name_then_qualified", "qualified_name"} /\ ResolvedClass = cls
 =============================================================================
